@@ -26,6 +26,7 @@ import (
 	"grog/internal/caching/backends"
 	"grog/internal/config"
 	"grog/internal/label"
+	grogmaps "grog/internal/maps"
 	"grog/internal/model"
 	"grog/internal/output"
 	"grog/internal/output/handlers"
@@ -871,3 +872,59 @@ func TestRemoteFaults(t *testing.T) {
 type plainReader struct{ r io.Reader }
 
 func (p plainReader) Read(b []byte) (int, error) { return p.r.Read(b) }
+
+// ---- maps.MutexMap: per-name mutual exclusion ---------------------------------------------------------
+
+func TestMutexMap(t *testing.T) {
+	for id := *flagFrom; id < *flagTo; id++ {
+		r := &rnd{s: *flagSeed*424243 + uint64(id)*17 + 5}
+		fmt.Printf("CASE %d {}\n", id)
+		mm := grogmaps.NewMutexMap()
+		names := []string{"//a:x", "//a:y", "//b:x"}
+		clients := 3 + r.intn(5)
+		var mu sync.Mutex
+		var hist []Op
+		var wg sync.WaitGroup
+		seeds := make([]uint64, clients)
+		for c := range seeds {
+			seeds[c] = r.u64()
+		}
+		inside := map[string]*atomic.Int32{}
+		for _, n := range names {
+			inside[n] = new(atomic.Int32)
+		}
+		overlap := atomic.Int32{}
+		for c := 0; c < clients; c++ {
+			wg.Add(1)
+			go func(c int) {
+				defer wg.Done()
+				cr := &rnd{s: seeds[c]}
+				for n := 0; n < 8; n++ {
+					name := names[cr.intn(len(names))]
+					op := Op{Client: c, Kind: "lock", Key: name, Call: mono()}
+					mm.Lock(name)
+					op.Ret = mono()
+					if inside[name].Add(1) > 1 {
+						overlap.Add(1)
+					}
+					mu.Lock()
+					hist = append(hist, op)
+					mu.Unlock()
+					if cr.chance(1, 2) {
+						time.Sleep(time.Duration(cr.intn(50)) * time.Microsecond)
+					}
+					inside[name].Add(-1)
+					op2 := Op{Client: c, Kind: "unlock", Key: name, Call: mono()}
+					_ = mm.Unlock(name)
+					op2.Ret = mono()
+					mu.Lock()
+					hist = append(hist, op2)
+					mu.Unlock()
+				}
+			}(c)
+		}
+		wg.Wait()
+		fmt.Printf("RES %d %s\n", id, mustJSON(map[string]any{"id": id, "clients": clients, "overlaps": overlap.Load(), "history": hist}))
+	}
+	fmt.Println("BATCH-DONE")
+}
